@@ -240,6 +240,7 @@ func (c *Ctx) makeCall(x *ast.CallExpr, st *State) Val {
 		m := c.symbolicMap("mk", u)
 		c.assume("(= " + m.Len + " " + c.ilit(0) + ")")
 		c.assume(not(m.Nil))
+		c.mapMakes = append(c.mapMakes, m.Id)
 		return m
 	case *types.Slice:
 		n := c.adaptIdx(c.eval(x.Args[1], st))
